@@ -35,14 +35,19 @@ class ReplayDivergence(MachineryError):
 class Chooser:
     """Feeds a recorded prefix of choices, then defaults (0)."""
 
-    __slots__ = ("prefix", "labels", "points", "want_fp", "horizon")
+    __slots__ = ("prefix", "labels", "points", "want_fp", "horizon", "stop", "used")
 
-    def __init__(self, prefix=(), labels=None, want_fp=True, horizon=100000):
+    def _mc_state(self):
+        return "chooser"
+
+    def __init__(self, prefix=(), labels=None, want_fp=True, horizon=100000, stop=None):
         self.prefix = list(prefix)
         self.labels = labels  # optional list of (label, arity) expected in the prefix
         self.points: list[list] = []  # [label, arity, chosen, cost, fp]
         self.want_fp = want_fp
         self.horizon = horizon
+        self.stop = stop      # in-process explorer: stop(fp, used_cost) -> True once the walk would stop here anyway
+        self.used = 0
 
     def choose(self, n: int, label: str, *, cost: int = 1, fp: Callable[[], bytes] | None = None) -> int:
         i = len(self.points)
@@ -61,9 +66,13 @@ class Chooser:
             if not 0 <= c < n:
                 raise ReplayDivergence(f"replayed choice {c} out of range {n} at point {i} ({label})")
             f = None
+            if c:
+                self.used += cost[c] if isinstance(cost, list) else cost
         else:
             c = 0
             f = fp() if (fp is not None and self.want_fp) else None
+            if f is not None and self.stop is not None and self.stop(f, self.used):
+                self.want_fp = False      # the explorer stops walking at this point; later fingerprints are not needed
         self.points.append([label, n, c, cost, f])
         return c
 
@@ -116,10 +125,10 @@ def _digest(obj) -> str:
     return hashlib.blake2b(json.dumps(obj, sort_keys=True, default=repr).encode(), digest_size=12).hexdigest()
 
 
-def run_once(spec, prefix, labels=None, want_fp=True, keep_trace=False):
+def run_once(spec, prefix, labels=None, want_fp=True, keep_trace=False, stop=None):
     """Run one execution; returns a compact, picklable dict."""
     h = build_harness(spec)
-    ch = Chooser(prefix, labels, want_fp=want_fp, horizon=getattr(h, "horizon", 100000))
+    ch = Chooser(prefix, labels, want_fp=want_fp, horizon=getattr(h, "horizon", 100000), stop=stop)
     try:
         ex = h.run(ch)
     except MachineryError as e:
@@ -210,7 +219,12 @@ def explore(spec, *, bound=None, merge=True, max_execs=None, max_seconds=None, p
         if pool is not None and len(tasks) > 8:
             results = pool.imap(_worker_run, tasks, chunksize=max(1, min(64, len(tasks) // 64)))
         else:
-            results = map(_worker_run, tasks)
+            # in-process: let the chooser consult the seen-map so that fingerprints are only computed
+            # up to the point where this walk stops anyway
+            def _stop(fp, used, _seen=seen, _inf=inf):
+                prev = _seen.get(fp)
+                return prev is not None and prev >= (_inf if bound is None else bound - used)
+            results = (run_once(t[0], t[1], t[2], t[3], False, _stop if merge else None) for t in tasks)
         nxt = []
         for (prefix, _), r in zip(frontier, results):
             st.evaluations += 1
